@@ -30,9 +30,11 @@ EXTENDS Naturals, Sequences, FiniteSets, TLC, Json
 CONSTANTS MaxLen,      \* longest dotted path
           FullLen,     \* paths up to this length are combined with every set-up and sys.path mutation
           BodyKinds,   \* what a module body does: "ok" or the exception it raises
+          LongBodyKinds, \* the same for paths longer than FullLen
           AttrKinds,   \* what a container says about the next component
           Setups,      \* sys.path / import_paths set-ups (subset of AllSetups)
           PMuts,       \* sys.path mutations done by the first module's body
+          PMutEverywhere, \* TRUE: mutations under every set-up; FALSE: under the three set-ups of PMutSetups
           Emit
 
 VARIABLES n, mk, body, at, setup, pmut,                              \* the case
@@ -56,7 +58,11 @@ AllSetups ==
     [ip |-> <<"E">>, up |-> <<"R">>, ipk |-> "str"],       \* only the user's sys.path could find it
     [ip |-> <<"R", "X">>, up |-> <<"E">>, ipk |-> "str"],
     [ip |-> <<"X", "R">>, up |-> <<"E">>, ipk |-> "str"],
-    [ip |-> <<"E", "R">>, up |-> <<"X">>, ipk |-> "str"] }
+    [ip |-> <<"E", "R">>, up |-> <<"X">>, ipk |-> "str"],
+    [ip |-> <<"R">>, up |-> <<"R">>, ipk |-> "str"],       \* import_paths already on sys.path (the loader's
+    [ip |-> <<"R">>, up |-> <<"X", "R">>, ipk |-> "str"] } \* default search paths): still a swap
+\* not swapped / swapped / swapped although the import paths are on sys.path already
+PMutSetups == {s \in AllSetups : s.ipk = "str" /\ s.up \in {<<"R">>, <<"E">>} /\ s.ip \in {<<>>, <<"R">>}}
 DefaultSetup == [ip |-> <<"R">>, up |-> <<"E">>, ipk |-> "str"]
 
 ExcClass(b) == CASE b = "exc" -> "ValueError" [] b = "sysexit" -> "SystemExit"
@@ -176,13 +182,14 @@ Init ==
   /\ n \in 1..MaxLen
   /\ mk \in [1..n -> {"absent", "mod", "pkg", "ns"}]
   /\ \A i \in 2..n : mk[i] # "absent" => mk[i - 1] \in {"pkg", "ns"}
-  /\ body \in [1..n -> BodyKinds]
+  /\ body \in [1..n -> IF n <= FullLen THEN BodyKinds ELSE LongBodyKinds]
   /\ \A i \in 1..n : mk[i] \notin {"mod", "pkg"} => body[i] = "ok"
   /\ at \in [1..n -> AttrKinds]
   /\ at[1] = "none"
   /\ \A i \in 2..n : at[i] = "shadow" => (mk[i - 1] = "pkg" /\ mk[i] # "absent")
   /\ setup \in (IF n <= FullLen THEN Setups ELSE {DefaultSetup})
-  /\ pmut \in (IF n <= FullLen /\ mk[1] \in {"mod", "pkg"} /\ body[1] = "ok" THEN PMuts ELSE {"none"})
+  /\ pmut \in (IF n <= FullLen /\ mk[1] \in {"mod", "pkg"} /\ body[1] = "ok"
+                    /\ (PMutEverywhere \/ setup \in PMutSetups) THEN PMuts ELSE {"none"})
   /\ ref = RefRecord
   /\ pc = "call" /\ mparts = n /\ oparts = <<>> /\ errors = <<>>
   /\ S = InitS(setup.up) /\ old = "none" /\ value = Nil
